@@ -55,8 +55,14 @@ def replay(ck, rp):
   r = rp["replay"]
   hist, idx, fault = r["history"], r.get("bundle_index", len(r["history"]) - 1), r.get("fault")
   h = HistoryRun(random.Random(0), n_bundles=0, oracles=CFG["oracles"])
-  for b in hist[:idx]:
-    h._raw(b)
+  faults = r.get("faults", {})
+  for i, b in enumerate(hist[:idx]):
+    if str(i) in faults:
+      ed.REC.fault = ed.FaultAt(faults[str(i)])
+    try:
+      h._raw(b)
+    finally:
+      ed.REC.fault = None
   before, sb = h.doc.snapshot(), h.doc.engine_schema()
   if fault:
     ed.REC.fault = ed.FaultAt(fault[0])
